@@ -39,12 +39,47 @@ def sim_behaviours(wd, module, cfg, n, depth, seed, tag="sim"):
     return out
 
 
-def run_writer_programs(rep, wd, scenarios, label, neg_control=True):
+def add_referees(trace, rep):
+    """run the external parsers on every dumped archive and insert their verdicts after the Layout event"""
+    import referee
+    evs = vlib.read_ndjson(trace)
+    out = []
+    pending = None
+    stats = rep.notes.setdefault("referee_verdicts", {})
+    for e in evs:
+        if e.get("ev") == "Dumped":
+            pending = e
+            out.append(e)
+            continue
+        out.append(e)
+        if e.get("ev") == "Layout" and pending is not None:
+            L = e["L"]
+            for who, verdict in (("cpython", referee.cpython(pending["path"], L, pending.get("pws", []))),
+                                 ("unzip", referee.unzip_t(pending["path"], L))):
+                out.append({"ev": "Referee", "sc": e["sc"], "who": who, "verdict": verdict})
+                k = who + ":" + verdict.split(":")[0]
+                stats[k] = stats.get(k, 0) + 1
+            try:
+                os.unlink(pending["path"])
+            except OSError:
+                pass
+            pending = None
+    vlib.write_ndjson(trace, out)
+
+
+def run_writer_programs(rep, wd, scenarios, label, neg_control=True, referees=False):
     """execute scenarios on the real writer, validate the trace against Trace_Writer"""
     progs = os.path.join(wd, label + "-programs.ndjson")
     trace = os.path.join(wd, label + "-trace.ndjson")
+    if referees:
+        dump = os.path.join(wd, "dump")
+        os.makedirs(dump, exist_ok=True)
+        for s in scenarios:
+            s["dump"] = dump
     vlib.write_ndjson(progs, scenarios)
     vlib.run_harness(["wexec", progs, trace])
+    if referees:
+        add_referees(trace, rep)
     res = vlib.validate_segments("Trace_Writer.tla", "Trace_Writer.cfg", trace, wd, tag=label)
     by_sc = {s["sc"]: s for s in scenarios}
     rep.add_tv(res, by_sc, label)
@@ -153,7 +188,131 @@ def c01(tier):
                       assumptions=["names/comments do not embed ZIP signatures", "decompressors invert their compressors"])
 
 
-CHECKS = {"C01": c01, "C12": c12}
+def boundary_scenarios():
+    """inputs at and beyond what the 16-bit length fields can represent (C02)"""
+    scs = []
+    k = 0
+    for ln in (65534, 65535, 65536, 65537, 131072):
+        for large in (False, True):
+            base = [{"op": "New"}, {"op": "StartFile", "name": "first", "method": 8}, {"op": "Write", "data": "hello"}]
+            tail = [{"op": "StartFile", "name": "last", "method": 0}, {"op": "Write", "data": "x"}, {"op": "Finish"}]
+            nm = {"rep": "n", "n": ln}
+            nmu = {"rep": "é", "n": ln}
+            for what, ops in (
+                ("name", [{"op": "StartFile", "name": nm, "method": 0, "large": large}, {"op": "Write", "data": "abc"}]),
+                ("uname", [{"op": "StartFile", "name": nmu, "method": 8, "large": large}, {"op": "Write", "data": "abc"}]),
+                ("dir", [{"op": "AddDir", "name": nm, "method": 0, "large": large}]),
+                ("dirslash", [{"op": "AddDir", "name": {"rep": "d", "n": ln, "suffix": "/"}, "method": 0, "large": large}]),
+                ("sym", [{"op": "AddSymlink", "name": nm, "target": "t", "method": 0, "large": large}]),
+                ("xname", [{"op": "StartFileExtra", "name": nm, "method": 0, "large": large}, {"op": "EndExtra"}]),
+                ("aname", [{"op": "StartFileAligned", "name": nm, "method": 0, "large": large, "align": 64}]),
+                ("comment", [{"op": "SetComment", "c": {"rep": "c", "n": ln}}]),
+            ):
+                k += 1
+                scs.append({"sc": "b-%s-%d-%d" % (what, ln, large), "ops": base + ops + tail})
+    for total in (65510, 65511, 65515, 65516, 65520, 65535, 65536, 65540, 70000):
+        recs = [{"id": 0xbeef, "dsz": total - 4}] if total - 4 <= 65535 else [{"id": 0xbeef, "dsz": 60000}, {"id": 0xcafe, "dsz": total - 60008}]
+        for large in (False, True):
+            for central in (False, True):
+                ops = [{"op": "New"}, {"op": "StartFileExtra", "name": "x", "method": 0, "large": large}]
+                if central:
+                    ops.append({"op": "EndLocalStartCentral"})
+                ops += [{"op": "WriteExtra", "recs": recs}, {"op": "EndExtra"}, {"op": "Write", "data": "payload"},
+                        {"op": "StartFile", "name": "after", "method": 8}, {"op": "Write", "data": "zz"}, {"op": "Finish"}]
+                scs.append({"sc": "bx-%d-%d-%d" % (total, large, central), "ops": ops})
+    return scs
+
+
+def c02(tier):
+    rep = Report("C02", tier)
+    wd = vlib.workdir("C02", tier)
+    vlib.build_harness()
+    mc_writer(rep, wd, tier)
+    sd = vlib.seed()
+    n = 120 if tier == "quick" else 3000
+    g = gen_writer.Gen(sd * 15485863 + 2, tier)
+    scs = [g.valid_archive("v%05d" % i, nmax=7, allow_long=(i % 8 == 0)) for i in range(n)]
+    # raw copies interleaved with ordinary entries
+    for i in range(n // 4):
+        ops = list(gen_writer.SRC_PRELUDE) + [{"op": "New"}]
+        for _ in range(g.r.randint(1, 6)):
+            if g.r.random() < 0.5:
+                ops.append({"op": "RawCopy", "arch": 0, "idx": g.r.randint(0, 3), "rename": None if g.r.random() < 0.5 else g.name()})
+            else:
+                ops.append(dict(g.opts(), op="StartFile", name=g.name()))
+                ops.append({"op": "Write", "data": g.payload()})
+        ops.append({"op": "Finish"})
+        scs.append({"sc": "rc%05d" % i, "ops": ops})
+    bs = boundary_scenarios()
+    if tier == "quick":
+        bs = [s for i, s in enumerate(bs) if i % 3 == sd % 3]
+    run_writer_programs(rep, wd, scs + bs, "valid", referees=True)
+    return rep.finish("model_checking",
+                      "every archive the writer reports as finished is lexed by the harness's independent strict parser "
+                      "and judged by ZipFormat!WriterWellFormed + equality with the layout ZipWriter.tla predicts; CPython "
+                      "zipfile and Info-ZIP unzip -t verdicts are required to be ok; lengths at/over the 16-bit limits "
+                      "must be refused; MC_Writer checks LayoutWellFormed/NoTruncation at scaled thresholds",
+                      assumptions=["version-needed is not constrained", "CPython cannot decode zstd entries (skipped there)"])
+
+
+def c17(tier):
+    rep = Report("C17", tier)
+    wd = vlib.workdir("C17", tier)
+    vlib.build_harness()
+    mc_writer(rep, wd, "quick")
+    sd = vlib.seed()
+    g = gen_writer.Gen(sd * 32452843 + 17, tier)
+    if tier == "quick":
+        aligns = list(range(0, 301)) + [2 ** k + d for k in range(9, 16) for d in (-1, 0, 1)] + list(range(65531, 65536))
+    else:
+        aligns = list(range(0, 65536))
+    g.r.shuffle(aligns)
+    scs = []
+    per = 6
+    for i in range(0, len(aligns), per):
+        ops = [{"op": "New"}]
+        for a in aligns[i:i + per]:
+            if g.r.random() < 0.6:   # vary the preceding offset
+                ops.append({"op": "StartFile", "name": g.name(), "method": g.r.choice([0, 8])})
+                ops.append({"op": "Write", "data": {"len": g.r.randint(0, 70), "seed": a + 1, "kind": "text"}})
+            o = g.opts(methods=[0, 0, 8])
+            ops.append(dict(o, op="StartFileAligned", name="al%d" % a, align=a))
+            ops.append({"op": "Write", "data": {"len": g.r.randint(0, 40), "seed": a, "kind": "rand"}})
+        ops.append({"op": "Finish"})
+        scs.append({"sc": "al%05d" % i, "ops": ops})
+    # extra-data programs: local-only, central-only, shared; reserved / ZIP64 / truncated records
+    nx = 150 if tier == "quick" else 4000
+    for i in range(nx):
+        ops = [{"op": "New"}]
+        for _ in range(g.r.randint(1, 4)):
+            o = g.opts(methods=[0, 8, 12])
+            ops.append(dict(o, op="StartFileExtra", name=g.name()))
+            bad = g.r.random() < 0.35
+            mode = g.r.choice(["shared", "local", "central", "both"])
+            if mode == "shared":
+                ops += [{"op": "WriteExtra", "recs": g.extra_recs(bad)}, {"op": "EndExtra"}]
+            elif mode == "local":
+                ops += [{"op": "WriteExtra", "recs": g.extra_recs(bad)}, {"op": "EndLocalStartCentral"}, {"op": "EndExtra"}]
+            elif mode == "central":
+                ops += [{"op": "EndLocalStartCentral"}, {"op": "WriteExtra", "recs": g.extra_recs(bad)}, {"op": "EndExtra"}]
+            else:
+                ops += [{"op": "WriteExtra", "recs": g.extra_recs()}, {"op": "EndLocalStartCentral"},
+                        {"op": "WriteExtra", "recs": g.extra_recs(bad)}, {"op": "EndExtra"}]
+            ops.append({"op": "Write", "data": g.payload()})
+        ops.append({"op": "Finish"})
+        scs.append({"sc": "xd%05d" % i, "ops": ops})
+    run_writer_programs(rep, wd, scs, "align")
+    rep.notes["alignments_covered"] = len(aligns)
+    return rep.finish("model_checking",
+                      "start_file_aligned for each alignment value at varied preceding offsets (quick: 0..300, powers of two "
+                      "+-1, 65531..65535; thorough: all 65536), with and without large_file, several aligned entries per "
+                      "archive; extra-data programs (shared/local-only/central-only, reserved/ZIP64/truncated records); "
+                      "returned padding, data_start in the bytes and from the reader, placement and verbatim storage of extra "
+                      "data validated against ZipWriter.tla (AlignedF, EndExtraF) and the Aligned invariant",
+                      assumptions=["extra-data programs write whole records per call"])
+
+
+CHECKS = {"C01": c01, "C02": c02, "C12": c12, "C17": c17}
 
 
 def setup():
